@@ -209,7 +209,12 @@ def cases(rng, tier):
         yield _default_case(rng)
     for _ in range(n_ship):
         path = rng.choice(SHIPPED)
-        fs = T.class_schema(_cls(path))
+        try:
+            fs = T.class_schema(_cls(path))       # the shipped class's own field table is the input of this case
+        except Exception as e:     # noqa - not a crash of the generator: a case that reports it (see run_impl)
+            yield {'kind': 'shipped', 'cls': path, 'values': [], 'mut': {'kind': 'none'},
+                   'setup_error': f'{type(e).__name__}: {e}'[:200]}
+            continue
         vals = [T.random_value(rng, s) for s in fs]
         yield _spelled(rng, {'kind': 'shipped', 'cls': path, 'values': [T.jval(v) for v in vals], 'mut': _mutation(rng, fs, vals)})
 
@@ -983,6 +988,9 @@ def run_impl(case):
         return _run_cls(case)
     if case['kind'] == 'shipcls':
         return _run_shipcls(case)
+    if case.get('setup_error'):
+        # the generator could not read the field table of a shipped model class: that class cannot encode anything
+        return {'enc': ['err', 'setup of ' + case['cls'] + ': ' + case['setup_error']], 'setup_error': True}
     cls, fs, vals = _setup(case)
     out = {'schema_text': T.schemas_text(fs), 'values_text': T.values_text(vals)}
     names = None
@@ -1142,7 +1150,7 @@ def _lines(case, impl):
 
 
 def model_line(case, impl):       # noqa: F811  (enc question; parse question is appended with a separator)
-    if case['kind'] == 'dflt':
+    if case['kind'] == 'dflt' or impl.get('setup_error'):
         return None               # declared defaults are not part of the Lean model: oracle only
     if impl.get('cls'):
         return 'C08 ' + ' ;; '.join(impl['merge_q'])
